@@ -117,6 +117,14 @@ func main() {
 			}
 		}
 	}
+	run.Races(func(rep string) string {
+		for _, frag := range []string{"/repo/image.go", "/repo/blob.go", "/repo/manifest.go"} {
+			if fn := ev.RaceFrame(rep, frag); fn != "" {
+				return "race/image-copy/" + fn
+			}
+		}
+		return ""
+	})
 	if run.Get("faults_fired") < 100 || run.Get("failed_copies_audited") < 50 || run.Get("manifest_puts_inspected") < 100 {
 		run.Inconclusive("too few faults fired / failed copies audited / manifest PUTs inspected")
 	}
